@@ -210,6 +210,33 @@ def check_C12(tier):
                            "decode to what the reference decoder says / be rejected / satisfy TruncRel")
 
 
+# ------------------------------------------------------------------------------------------------
+# RTMP messages
+
+def check_C13(tier):
+    out = Outcome("C13", tier, "model_checking")
+    wd = vlib.workdir("C13")
+    r = vlib.model_check("MC_Amf0.tla", "MC_Amf0_quick.cfg", wd)
+    out.add_s1(r, "MC_Amf0 (the AMF0 reference used for command/data bodies)")
+    vlib.build_harness()
+    shards = 4
+
+    def gen(i):
+        path = os.path.join(wd, "msg_%d.ndjson" % i)
+        p = vlib.harness(["msg", i, shards, "--tier", tier, "--seed", vlib.seed(), "--out", path])
+        return path, vlib.last_json(p.stdout)
+    logs = vlib.parallel([(lambda i=i: gen(i)) for i in range(shards)], nproc=8)
+    res = vlib.parallel([(lambda pth=pth: vlib.validate_trace("Trace_Msg.tla", pth, wd, {})) for pth, _ in logs], nproc=8)
+    for (pth, info), r in zip(logs, res):
+        out.add_trace(r, runs=info.get("runs", 0))
+        out.verdicts(r)
+    sample_events(out, logs[0][0], ("ToPayload", "ToMessage"), n=3)
+    out.assumptions = ["RtmpMsg.tla as a faithful reading of RTMP 1.0 sections 5.4/6.2/7.1", "Amf0.tla", "TLC; harness logger"]
+    return out.finish(rule="every message variant x u32 boundary table x all 9 user-control events x 3 limit types, AMF0 "
+                           "argument lists, audio/video bodies 0..70000 bytes, all 256 type ids; both directions; the body "
+                           "layout and type id are judged by RtmpMsg.tla")
+
+
 def replay(path):
     with open(path) as f:
         body = json.load(f)
